@@ -71,10 +71,12 @@ def build_ev(s, shift=0):
               build_battery(s["battery"]), estimated_departure=s.get("est_dep", s["departure"]) + shift)
 
 
-def build_events(desc, shift=0, session_order=None, queue=None, late=False):
+def build_events(desc, shift=0, session_order=None, queue=None, late=False, evs=None):
     from acnportal.acnsim.events import EventQueue, PluginEvent, RecomputeEvent
     sessions = desc["sessions"] if session_order is None else [desc["sessions"][i] for i in session_order]
-    evs = [build_ev(s, shift) for s in sessions]
+    if evs is None:
+        evs = [build_ev(s, shift) for s in sessions]
+    # (else: EV objects handed in by the caller, e.g. the cars of an earlier simulation after their public reset())
     events = [PluginEvent(e.arrival, e) for e in evs] + [RecomputeEvent(t + shift) for t in desc.get("recompute", [])]
     if late:  # the caller fills the queue only after the simulator has been constructed on it
         return (queue if queue is not None else EventQueue()), evs, events
@@ -208,20 +210,22 @@ def build_scheduler(desc, sort_wrapper=None):
 
 
 def build_sim(desc, scheduler=None, network=None, shift=0, order=None, cons_order=None,
-              session_order=None, net_cls=None, net_kw=None, queue=None, late_fill=False, **simkw):
+              session_order=None, net_cls=None, net_kw=None, queue=None, late_fill=False, evs=None, **simkw):
     from acnportal.acnsim import Simulator
     net = network or build_network(desc["network"], cls=net_cls, order=order, cons_order=cons_order,
                                    **(net_kw or {}))
     pending_events = None
     if late_fill:
-        q, evs, pending_events = build_events(desc, shift=shift, session_order=session_order, queue=queue, late=True)
+        q, evs, pending_events = build_events(desc, shift=shift, session_order=session_order, queue=queue, late=True, evs=evs)
     else:
-        q, evs = build_events(desc, shift=shift, session_order=session_order, queue=queue)
+        q, evs = build_events(desc, shift=shift, session_order=session_order, queue=queue, evs=evs)
     sch = scheduler if scheduler is not None else build_scheduler(desc)
     if getattr(sch, "sd", None) is not None and shift:
         sch.sd = dict(sch.sd, t0=sch.sd.get("t0", 0) + shift)
     np.random.seed(desc.get("np_seed", 0))
-    sim = Simulator(net, sch, q, start_of(desc), period=desc["period"], verbose=False,
+    # verbose: the library default is True (progress lines on stdout, which the workers discard); the code behind the messages
+    # runs only then
+    sim = Simulator(net, sch, q, start_of(desc), period=desc["period"], verbose=bool(desc.get("verbose", False)),
                     signals=desc.get("signals"), **simkw)
     if pending_events is not None:
         # the simulator was built on an empty queue; the very queue object it was given is filled now
